@@ -849,6 +849,12 @@ def _type_from_subscripted_value(
             ctx.show_error("Unpack requires a single argument")
             return AnyValue(AnySource.error)
         return UnpackedValue(_type_from_value(members[0], ctx))
+    elif is_typing_name(root, "Final") or is_typing_name(root, "ClassVar"):
+        if len(members) != 1:
+            ctx.show_error(f"{root} requires a single argument")
+            return AnyValue(AnySource.error)
+        # TODO(#160): properly support Final
+        return _type_from_value(members[0], ctx)
     elif root is Callable or root is typing.Callable:
         if len(members) == 2:
             args, return_value = members
